@@ -127,6 +127,20 @@ def run_lines(argv, lines, timeout=60, env=None):
     return p.stdout.splitlines(), outcome, (p.stderr or "")[-3000:]
 
 
+def safety_key(outcome, err):
+    """`safety:<outcome>[:<kind>@<library header>]` — the sanitizer's error kind and the first frame inside the library's
+    headers make the key specific enough for known-finding matching while staying stable under line shifts."""
+    kind = ""
+    m = re.search(r"AddressSanitizer: ([a-z\-]+)|runtime error: ([^\n]{0,60})|LeakSanitizer: ([a-z ]+)", err or "")
+    if m:
+        kind = (m.group(1) or m.group(2) or m.group(3) or "").strip().replace(" ", "-")[:40]
+    fr = re.search(r"#\d+ [^\n]*?/((?:common|theta|tuple|hll|cpc|kll|req|quantiles|fi|count|sampling|tdigest|filters|density)/include/[\w\-\.]+):\d+", err or "")
+    key = "safety:" + outcome
+    if kind or fr:
+        key += ":" + kind + ("@" + os.path.basename(fr.group(1)) if fr else "")
+    return key
+
+
 def run_impl(exe, lines, args=(), timeout=60):
     return run_lines([exe] + list(args), lines, timeout, env=ASAN_ENV)
 
